@@ -657,7 +657,7 @@ def splice(body, contract, applied):
     nloop_dirs = set()
     degraded = []
     for idx, (kind, arg, text) in enumerate(contract.directives):
-        if kind in ('subst', 'rule', 'closure', 'stubonly'):
+        if kind in ('subst', 'rule', 'closure', 'stubonly', 'isolated'):
             continue
         if kind == 'foriter':
             k, nm = arg.split()
@@ -1092,7 +1092,8 @@ def emit_fn(contract, verified, info, key_override=None, skip_sigcheck_name=None
         body = body[:ob + 1] + '\n    proof { let vacuity_probe = 0int; assert(vacuity_probe == 1); }' + body[ob + 1:]
     # loop_isolation(false): loop bodies see the facts established before the loop about variables the loop does not
     # modify (so hoisting an expression out of a loop, a harmless edit, does not break the proof)
-    complex_inv = any(k == 'loop' and re.search(r'^\s*(invariant_except_break|ensures)\b', t, re.M) for k, a, t in contract.directives)
+    keep_isolated = any(k == 'isolated' for k, a, t in contract.directives)
+    complex_inv = keep_isolated or any(k == 'loop' and re.search(r'^\s*(invariant_except_break|ensures)\b', t, re.M) for k, a, t in contract.directives)
     iso = '#[verifier::loop_isolation(false)]\n' if nloops > 0 and LOOP_ISOLATION_OFF and not complex_inv else ''
     return '//@@BEGIN %s\n' % (key_override or contract.key) + iso + head + '\n' + body + '\n//@@END %s\n' % (key_override or contract.key)
 
